@@ -230,6 +230,9 @@ def gen_workload(tape):
                 o["rect"]["kind"] = tape.pick(["interior", "lon_border", "touch"], "iokind")
                 o["rect"]["lat_e"] = 1
                 o["rect"]["lon_e"] = 4 + tape.choice(2, "iolon")
+            # before this request another process (or the user) puts tiles
+            # the request needs into the shared cache directory
+            o["external_fill"] = tape.flag("external_fill", 1, 5)
         elif o["op"] in ("native_grids", "get_tile"):
             o["tile"] = tape.choice(27, "tile") if w["config"] == "fast" else 12 + tape.choice(2, "iotile")
         if w["config"] == "io":
@@ -404,6 +407,21 @@ def run_one(tape, only=None):
                     o = w["ops"][oi]
                     if w["two_callers"]:
                         sim.yield_(f"op{oi}")
+                    if o.get("external_fill") and "rect" in o and not w["two_callers"]:
+                        os.makedirs(cache, exist_ok=True)
+                        added = 0
+                        for name in expected_tiles(*resolve_rect(o["rect"])):
+                            dem = os.path.join(cache, (name + ".dem").upper())
+                            if not os.path.exists(dem):
+                                if w["config"] == "fast":
+                                    open(dem, "wb").close()
+                                else:
+                                    with zipfile.ZipFile(
+                                            io.BytesIO(io_tile_bytes(name))) as z:
+                                        z.extractall(cache)
+                                added += 1
+                        if added:
+                            probe("tiles_added_to_the_cache_from_outside")
                     present_before = listing()
                     log_before = len(net.log) + len(fast_log)
                     if w["config"] == "io":
